@@ -1060,7 +1060,8 @@ def run_shard(shard):
         acc.outcome(outcome)
         if nontrivial:
             acc.nontriv(digest(case))
-        if (outcome.startswith("valid:completed") or outcome.startswith("invalid:refused:LeaspyAlgoInputError")) and not acc.samples:
+        wanted = "invalid:refused:LeaspyAlgoInputError" if shard["kind"] == "invalid" else "valid:completed"
+        if outcome.startswith(wanted) and "visits=1:" not in outcome and not acc.samples:
             acc.sample({"case": case, "outcome": outcome})
         for v in vio:
             acc.violation(v["signature"], v["message"], case, expected=v["expected"], observed=v["observed"])
